@@ -1,30 +1,323 @@
+// Event monitors.  The shadow state is updated only from hook events; the library's own scheduler
+// tables are read (never written) through the pointers announced by the INIT event.
 #include "slu_mt_ddefs.h"
 #include "monitor.hh"
 #include "sim.hh"
 #include <cstdarg>
+#include <algorithm>
+
+extern long g_ienv[9];
 
 namespace {
+
 std::vector<Viol> pending;
 std::map<std::string, long> probes;
 int cur_op = -1;
+
 pxgstrf_shared_t *shared = nullptr;
 superlumt_options_t *options = nullptr;
+GlobalLU_t *Glu = nullptr;
 long N = 0;
+bool inited = false;
+long first_zero_col = -1;   // smallest column with PIVOT_ZERO (0-based) in this op
+
+enum CS { C_UNTAKEN = 0, C_TAKEN, C_PIVOTED, C_RELEASED };
+std::vector<int> col_state, col_owner, pivots, releases;
+std::vector<long> subtree;            // subtree size in the postordered etree
+std::vector<int> handed;              // per panel leader: times handed out
+std::vector<long> slot_end;           // per H-supernode leader: end of reserved lusup slot (-1 unknown)
+std::vector<long> slot_start;
+long panels_total = 0, handed_total = 0;
+bool dynamic_mode = false;
+long max_open_nsuper = -1;
+std::vector<std::vector<std::pair<long, long>>> upd_ranges; // per target column
+long thread_exits = 0;
+bool mem_error_seen = false;
+
+struct Interval { int type; long fsupc; long krep; }; // type 0 = UPD (values+first copy), 1 = DFS first copy, 2 = DFS second copy
+struct TaskShadow { long panel = -1, w = 0, bcol = -1; const int_t *lbusy = nullptr; std::vector<Interval> iv; bool in_prune = false; long prune_fsupc = -1; };
+std::vector<TaskShadow> ts;
+
+std::string fmt(const char *f, ...) __attribute__((format(printf, 1, 2)));
+std::string fmt(const char *f, ...) { char b[400]; va_list ap; va_start(ap, f); vsnprintf(b, sizeof b, f, ap); va_end(ap); return b; }
+
+void viol(const char *prop, const char *sig, const std::string &d) {
+    for (auto &v : pending) if (v.prop == prop && v.sig == sig) return; // one per class per run
+    Viol v; v.prop = prop; v.oracle = sig; v.sig = sig; v.detail = d; v.op = cur_op;
+    pending.push_back(v);
+}
+[[noreturn]] void stop(const char *prop, const char *sig, const std::string &d) { sim::request_stop(std::string(prop) + "|" + sig + "|" + d); abort(); }
+
+TaskShadow &T(int t) { if ((int)ts.size() <= t) ts.resize((size_t)t + 1); return ts[(size_t)t]; }
+
+inline long fsupc_of(long col) { return Glu->xsup[Glu->supno[col]]; }
+inline bool in_subtree(long node, long root) { return node <= root && node > root - subtree[root]; }
+
+void on_init(long n, const void *ptr, long c) {
+    shared = (pxgstrf_shared_t *)ptr; options = (superlumt_options_t *)c; Glu = shared->Glu; N = n; inited = true;
+    sim::note_sched_lock(&shared->lu_locks[SCHED_LOCK]);
+    sim::note_tasks_remain((const void *)&shared->tasks_remain, (int)sizeof(int_t));
+    col_state.assign(n, C_UNTAKEN); col_owner.assign(n, -1); pivots.assign(n, 0); releases.assign(n, 0);
+    handed.assign(n + 1, 0); upd_ranges.assign(n, {});
+    ts.clear();
+    panels_total = shared->tasks_remain; handed_total = 0; max_open_nsuper = -1; thread_exits = 0; mem_error_seen = false;
+    first_zero_col = -1;
+    // subtree sizes (etree is postordered: children before parents)
+    subtree.assign(n + 1, 1);
+    const int_t *et = options->etree;
+    bool post_ok = true;
+    for (long j = 0; j < n; ++j) { long p = et[j]; if (p <= j || p > n) { post_ok = false; break; } if (p < n) subtree[p] += subtree[j]; }
+    if (!post_ok) viol("C10", "etree_not_postordered", "etree handed to the factorization is not a postordered forest");
+    // reserved L-supernode slots
+    dynamic_mode = Glu->dynamic_snode_bound != 0;
+    slot_end.assign(n + 1, -1); slot_start.assign(n + 1, -1);
+    const int_t *map = Glu->map_in_sup;
+    if (!dynamic_mode) {
+        long prev = -1;
+        for (long j = 0; j < n; ++j) if (map[j] >= 0) { slot_start[j] = map[j]; if (prev >= 0) slot_end[prev] = map[j]; prev = j; }
+        if (prev >= 0) slot_end[prev] = map[n];
+    } else {
+        long prev = -1;
+        for (long j = 0; j < n; ++j)
+            if (shared->pan_status[j].type == RELAXED_SNODE && shared->pan_status[j].size > 0) { slot_start[j] = map[j]; if (prev >= 0) slot_end[prev] = map[j]; prev = j; }
+        if (prev >= 0) slot_end[prev] = Glu->nextlu;
+    }
+    if (shared->num_splits > 0) probes["panel_split_at_top"]++;
+    probes["factorizations_monitored"]++;
+}
+
+void check_lock(int task, int which, const char *what) {
+    if (!shared) return;
+    if (sim::mutex_owner(&shared->lu_locks[which]) != task) viol("C03", "lock_discipline", fmt("%s outside its critical section", what));
+}
+
+void on_sched_cs(int task, long finished, long taken, long bcol) {
+    check_lock(task, SCHED_LOCK, "scheduler update");
+    queue_t *q = &shared->taskq;
+    if (!(0 <= q->head && q->head <= q->tail && q->tail <= N)) viol("C04", "queue_bounds", fmt("head=%ld tail=%ld n=%ld", (long)q->head, (long)q->tail, N));
+    if (q->count != q->tail - q->head) viol("C04", "queue_count", fmt("count=%ld head=%ld tail=%ld", (long)q->count, (long)q->head, (long)q->tail));
+    TaskShadow &me = T(task);
+    me.iv.clear();
+    if (finished >= 0 && finished < N && col_owner[finished] != task) viol("C04", "finished_foreign_panel", fmt("task reports panel %ld it does not own", finished));
+    if (taken >= 0 && taken < N) {
+        ++handed_total;
+        if (++handed[taken] != 1) viol("C04", "panel_handed_twice", fmt("panel %ld handed out %d times", taken, handed[taken]));
+        long w = shared->pan_status[taken].size;
+        if (w <= 0) { viol("C04", "panel_not_leader", fmt("column %ld handed out is not a panel leader (size %ld)", taken, w)); w = 1; }
+        for (long j = taken; j < taken + w && j < N; ++j) {
+            if (col_state[j] != C_UNTAKEN) viol("C04", "column_taken_twice", fmt("column %ld taken again", j));
+            col_state[j] = C_TAKEN; col_owner[j] = task;
+        }
+        me.panel = taken; me.w = w; me.bcol = bcol; me.lbusy = nullptr;
+        if (shared->pan_status[taken].state != BUSY) viol("C04", "taken_not_busy", fmt("panel %ld handed out but not marked BUSY", taken));
+        // I4: hand-out rule.  A descendant panel counts as unfinished while at least one of its columns has not been
+        // released (the owner's STATE = DONE store comes later, after post-release work that nobody depends on).
+        long last = taken + w - 1;
+        long lo = last - subtree[last] + 1;
+        std::vector<long> Q;
+        for (long p = lo; p < taken;) {
+            long pw = shared->pan_status[p].size;
+            if (pw <= 0) { ++p; continue; }
+            bool unreleased = false;
+            for (long k = p; k < p + pw; ++k) if (col_state[k] != C_RELEASED) unreleased = true;
+            if (unreleased) Q.push_back(p);
+            else if (shared->pan_status[p].state != DONE) probes["descendant_released_but_not_marked_done"]++;
+            p += pw;
+        }
+        bool chain = true;
+        for (size_t i = 0; i < Q.size(); ++i) {
+            long p = Q[i];
+            if (shared->pan_status[p].state != BUSY) { viol("C03", "handout_unfinished_descendant", fmt("panel %ld handed out while descendant panel %ld is neither finished nor busy (state %d)", taken, p, (int)shared->pan_status[p].state)); chain = false; }
+            else if (col_owner[p] < 0 || !sim::task_live(col_owner[p])) { viol("C03", "handout_orphan_busy", fmt("busy descendant panel %ld has no live owner", p)); chain = false; }
+            if (i > 0) { long pl = p + shared->pan_status[p].size - 1; if (!in_subtree(Q[i - 1], pl)) { viol("C03", "handout_not_a_chain", fmt("panel %ld handed out with two unfinished descendant branches (%ld and %ld)", taken, Q[i - 1], p)); chain = false; } }
+        }
+        if (bcol < lo || bcol > taken) viol("C03", "handout_bcol", fmt("panel %ld: farthest busy column %ld is not a descendant", taken, bcol));
+        else if (chain && !Q.empty()) {
+            // the reported farthest busy column must lie at or below the lowest unfinished panel, on the same path
+            long pl = Q[0] + shared->pan_status[Q[0]].size - 1;
+            if (!(bcol <= Q[0] && in_subtree(bcol, pl))) viol("C03", "handout_bcol", fmt("panel %ld: farthest busy column reported %ld, but panel %ld still has unreleased columns", taken, bcol, Q[0]));
+        }
+        if (!Q.empty()) { probes["canpipe_panel_taken"]++; if (Q.size() >= 2) probes["busy_chain_ge2_panels"]++; if (Q.size() >= 3) probes["busy_chain_ge3_panels"]++; }
+    } else me.panel = -1;
+    long tr = shared->tasks_remain;
+    if (tr != panels_total - handed_total) viol("C04", "tasks_remain_mismatch", fmt("tasks_remain=%ld but %ld of %ld panels handed out", tr, handed_total, panels_total));
+}
 
 void on_event(int task, int kind, long pnum, long a, long b, long c, const void *ptr) {
-    (void)task; (void)pnum; (void)b; (void)c;
-    if (kind == SLU_EV_INIT) {
-        shared = (pxgstrf_shared_t *)ptr;
-        options = (superlumt_options_t *)c;
-        N = a;
-        sim::note_sched_lock(&shared->lu_locks[SCHED_LOCK]);
-        sim::note_tasks_remain((const void *)&shared->tasks_remain, (int)sizeof(int_t));
+    (void)pnum;
+    if (kind == SLU_EV_INIT) { on_init(a, ptr, c); return; }
+    if (kind == SLU_EV_STACK || kind == SLU_EV_SPIN) return;
+    if (!inited) return;
+    TaskShadow &me = T(task);
+    switch (kind) {
+    case SLU_EV_SCHED_CS: on_sched_cs(task, a, b, c); break;
+    case SLU_EV_BUSY_SNAPSHOT: {
+        me.lbusy = (const int_t *)ptr;
+        long J = a, w = shared->pan_status[J].size, last = J + w - 1, lo = last - subtree[last] + 1;
+        for (long k = lo; k < J; ++k)
+            if (col_state[k] != C_RELEASED && me.lbusy[k] != J) { viol("C03", "snapshot_misses_busy_column", fmt("panel %ld: descendant column %ld not released and not in the busy snapshot", J, k)); break; }
+        break;
+    }
+    case SLU_EV_WAIT: {
+        long J = a, k = b;
+        if (me.lbusy && me.lbusy[k] != J) viol("C03", "wait_outside_snapshot", fmt("panel %ld waits for column %ld that is not in its busy snapshot", J, k));
+        if (col_state[k] == C_UNTAKEN) viol("C03", "wait_on_untaken", fmt("panel %ld waits for column %ld which nobody has taken", J, k));
+        probes["pipeline_waits"]++;
+        break;
+    }
+    case SLU_EV_UPD_BEGIN: {
+        long fs = b, kr = c;
+        for (long k = fs; k <= kr; ++k) if (col_state[k] != C_RELEASED) { viol("C03", "read_before_final", fmt("panel %ld reads supernode [%ld..%ld] but column %ld is not released", a, fs, kr, k)); break; }
+        me.iv.push_back({0, fs, kr});
+        long nsupc = kr - fs + 1, nsupr = Glu->xlsub_end[fs] - Glu->xlsub[fs];
+        if (nsupc >= g_ienv[5] && nsupr - nsupc >= g_ienv[4]) probes["update_2d"]++; else probes["update_1d"]++;
+        break;
+    }
+    case SLU_EV_UPD_END: {
+        for (size_t i = me.iv.size(); i-- > 0;) if (me.iv[i].type == 0 && me.iv[i].fsupc == b) { me.iv.erase(me.iv.begin() + (long)i); break; }
+        break;
+    }
+    case SLU_EV_UPD_STEP: {
+        long jj = a, kf = b, kr = c;
+        for (long k = kf; k <= kr; ++k) {
+            bool own = col_owner[k] == task && k >= me.panel && k < me.panel + me.w && col_state[k] >= C_PIVOTED;
+            if (col_state[k] != C_RELEASED && !own) { viol("C03", "read_before_final", fmt("column %ld updated from column %ld which is not released", jj, k)); break; }
+        }
+        if (jj >= 0 && jj < N) {
+            for (auto &r : upd_ranges[jj]) if (!(kr < r.first || kf > r.second)) { viol("C03", "update_applied_twice", fmt("column %ld: source range [%ld..%ld] overlaps [%ld..%ld]", jj, kf, kr, r.first, r.second)); break; }
+            upd_ranges[jj].push_back({kf, kr});
+        }
+        break;
+    }
+    case SLU_EV_DFS_SNODE: {
+        long kr = b; long fs = fsupc_of(kr);
+        me.iv.push_back({c ? 2 : 1, fs, kr});
+        for (int t = 0; t < (int)ts.size(); ++t) if (t != task && ts[t].in_prune && ts[t].prune_fsupc == fs && c) { viol("C03", "dfs_reads_copy_being_pruned", fmt("DFS of column %ld enters pruned copy of supernode %ld while it is being partitioned", a, fs)); }
+        if (!c) for (int t = 0; t < (int)ts.size(); ++t) if (t != task && ts[t].in_prune && ts[t].prune_fsupc == fs) probes["dfs_first_copy_during_prune"]++;
+        break;
+    }
+    case SLU_EV_DFS_LEAVE: {
+        for (size_t i = me.iv.size(); i-- > 0;) if (me.iv[i].type != 0 && me.iv[i].krep == b) { me.iv.erase(me.iv.begin() + (long)i); break; }
+        break;
+    }
+    case SLU_EV_NEW_SUPER: check_lock(task, NSUPER_LOCK, "supernode counter increment"); break;
+    case SLU_EV_SUPER_OPEN: {
+        if (b < max_open_nsuper) probes["numbering_ne_storage_order"]++;
+        max_open_nsuper = std::max(max_open_nsuper, b);
+        break;
+    }
+    case SLU_EV_SUPER_JOIN: {
+        long fs = c;
+        if (a == me.panel) probes["supernode_spans_two_panels"]++;
+        for (int t = 0; t < (int)ts.size(); ++t) if (t != task) for (auto &iv : ts[t].iv)
+            if (iv.type == 2 && iv.fsupc == fs) viol("C03", "write_under_reader", fmt("column %ld joins supernode %ld while task %d traverses its second subscript copy", a, fs, t));
+        break;
+    }
+    case SLU_EV_ALLOC: {
+        long mt = a, prev = b, num = c; long jcol = *(const int_t *)ptr;
+        if (mt == LUSUP) {
+            long lead = Glu->map_in_sup[jcol] < 0 ? jcol + Glu->map_in_sup[jcol] : jcol;
+            long end = slot_end[lead];
+            if (end >= 0 && prev + num > end) {
+                if (dynamic_mode && !(shared->pan_status[lead].type == RELAXED_SNODE))
+                    stop("C05", "dyn_slot_overrun", fmt("dynamic mode: column %ld needs lusup[%ld..%ld) but the slot predicted for H-supernode %ld ends at %ld", jcol, prev, prev + num, lead, end));
+                stop("C05", "lusup_slot_overrun", fmt("column %ld needs lusup[%ld..%ld) but the slot reserved for H-supernode %ld ends at %ld", jcol, prev, prev + num, lead, end));
+            }
+            if (prev + num > Glu->nzlumax) stop("C05", "lusup_array_overrun", fmt("column %ld needs lusup up to %ld, array holds %ld", jcol, prev + num, (long)Glu->nzlumax));
+            probes["lusup_allocs_checked"]++;
+        } else if (mt == LSUB) {
+            check_lock(task, LLOCK, "L-subscript bump pointer");
+            if (prev + num > Glu->nzlmax) viol("C05", "lsub_overrun", fmt("lsub needs %ld, holds %ld", prev + num, (long)Glu->nzlmax));
+        } else {
+            check_lock(task, ULOCK, "U bump pointer");
+            if (prev + num > Glu->nzumax) viol("C05", "ucol_overrun", fmt("ucol needs %ld, holds %ld", prev + num, (long)Glu->nzumax));
+        }
+        break;
+    }
+    case SLU_EV_ALLOC_DYN: {
+        check_lock(task, LULOCK, "dynamic L-supernode bump pointer");
+        long jcol = a, prev = b, num = c;
+        slot_start[jcol] = prev; slot_end[jcol] = prev + num;
+        if (prev + num > Glu->nzlumax) viol("C05", "dyn_estimate_exceeds_array", fmt("H-supernode %ld: slot [%ld..%ld) beyond nzlumax %ld", jcol, prev, prev + num, (long)Glu->nzlumax));
+        probes["dyn_slots"]++;
+        break;
+    }
+    case SLU_EV_PIVOT: {
+        long j = a;
+        if (++pivots[j] != 1) viol("C04", "column_pivoted_twice", fmt("column %ld pivoted %d times", j, pivots[j]));
+        if (col_owner[j] != task) viol("C04", "pivot_by_non_owner", fmt("column %ld pivoted by a task that does not own it", j));
+        if (b == 0) stop("C06", "pivot_empty_candidate_set", fmt("column %ld has no candidate row at all (nsupr == nsupc == %ld): the pivot search would read past the supernode's row list", j, c));
+        break;
+    }
+    case SLU_EV_PIVOT_ZERO: {
+        if (first_zero_col < 0 || a < first_zero_col) first_zero_col = a;
+        probes["zero_pivot_columns"]++;
+        col_state[a] = C_PIVOTED;
+        break;
+    }
+    case SLU_EV_ROWSWAP: {
+        long fs = b;
+        for (int t = 0; t < (int)ts.size(); ++t) if (t != task) for (auto &iv : ts[t].iv)
+            if ((iv.type == 0 || iv.type == 1) && iv.fsupc == fs) viol("C03", "write_under_reader", fmt("row interchange in supernode %ld (column %ld) while task %d reads it", fs, a, t));
+        probes["row_interchanges"]++;
+        break;
+    }
+    case SLU_EV_PIVOT_DONE: col_state[a] = C_PIVOTED; break;
+    case SLU_EV_COL_RELEASE:
+        if (col_state[a] != C_PIVOTED) viol("C03", "release_before_pivot", fmt("column %ld released in state %d", a, col_state[a]));
+        break;
+    case SLU_EV_COL_RELEASED:
+        if (shared->spin_locks[a] != 0) viol("C03", "release_flag_not_cleared", fmt("column %ld: flag still set after release", a));
+        col_state[a] = C_RELEASED; ++releases[a];
+        break;
+    case SLU_EV_SNODE_RELEASE:
+        for (long j = a; j < a + b && j < N; ++j) {
+            if (col_state[j] != C_PIVOTED) viol("C03", "release_before_pivot", fmt("relaxed supernode %ld: column %ld released in state %d", a, j, col_state[j]));
+            col_state[j] = C_RELEASED; ++releases[j];
+        }
+        break;
+    case SLU_EV_PRUNE_BEGIN: {
+        long fs = fsupc_of(b);
+        for (int t = 0; t < (int)ts.size(); ++t) if (t != task && ts[t].in_prune && ts[t].prune_fsupc == fs) probes["concurrent_prune_same_supernode"]++;
+        me.in_prune = true; me.prune_fsupc = fs;
+        for (int t = 0; t < (int)ts.size(); ++t) if (t != task) for (auto &iv : ts[t].iv)
+            if (iv.type == 2 && iv.fsupc == fs) viol("C03", "write_under_reader", fmt("pruning supernode %ld (by column %ld) while task %d traverses its pruned copy", fs, a, t));
+        break;
+    }
+    case SLU_EV_PRUNE_MID: me.in_prune = false; me.prune_fsupc = -1; break; // partition complete; the flag store follows
+    case SLU_EV_PRUNE_END: break;
+    case SLU_EV_PANEL_DONE: {
+        long J = a, w = shared->pan_status[J].size;
+        for (long j = J; j < J + w && j < N; ++j) if (col_state[j] != C_RELEASED) { viol("C04", "panel_done_with_unreleased_column", fmt("panel %ld marked done, column %ld not released", J, j)); break; }
+        break;
+    }
+    case SLU_EV_THREAD_EXIT:
+        ++thread_exits;
+        if (shared->tasks_remain > 0) viol("C04", "worker_exit_with_tasks_remaining", fmt("worker left its loop with tasks_remain=%ld", (long)shared->tasks_remain));
+        break;
+    default: break;
     }
 }
+
 } // namespace
 
+long monitor_first_zero_col() { return first_zero_col; }
+
 void monitor_install() { sim::event_cb = on_event; }
-void monitor_begin_op(const Case &, const OpSpec &, int opi) { cur_op = opi; shared = nullptr; options = nullptr; }
-void monitor_end_op(Outcome &, int, long) {}
+void monitor_begin_op(const Case &, const OpSpec &, int opi) { cur_op = opi; shared = nullptr; options = nullptr; Glu = nullptr; inited = false; first_zero_col = -1; }
+
+void monitor_end_op(Outcome &out, int opi, long info) {
+    (void)out; (void)opi;
+    if (!inited) return;
+    bool completed = info >= 0 && info <= N; // factorization ran to the end (singular or not)
+    if (completed) {
+        if (handed_total != panels_total) viol("C04", "panels_not_all_taken", fmt("%ld of %ld panels handed out", handed_total, panels_total));
+        for (long j = 0; j < N; ++j) {
+            if (pivots[j] != 1) { viol("C04", "column_not_pivoted_once", fmt("column %ld pivoted %d times", j, pivots[j])); break; }
+            if (releases[j] != 1) { viol("C04", "column_not_released_once", fmt("column %ld released %d times", j, releases[j])); break; }
+        }
+    }
+    inited = false; shared = nullptr; Glu = nullptr; options = nullptr;
+}
 void monitor_collect(std::vector<Viol> &into, int) { for (auto &v : pending) if (into.size() < 12) into.push_back(v); pending.clear(); }
 void monitor_probes(std::map<std::string, long> &into) { for (auto &kv : probes) into[kv.first] += kv.second; probes.clear(); }
